@@ -117,6 +117,7 @@ pub fn one_cut(buf: &[u8; 40], cut: usize, hdr: usize, l: usize, class: Class, t
     if cut < hdr {
         // not even the frame header is there: the caller must wait for more bytes
         assert!(matches!(&got, Err(FrameError::Incomplete(_))), "c02.header.truncated_header_is_incomplete");
+        assert!(matches!(&got, Err(FrameError::Incomplete(n)) if *n <= hdr + l && *n >= 1), "c02.header.incomplete_hint_within_frame");
         reached |= B_HDR_TRUNC;
     } else if class == Class::Data {
         // DATA: only the header is consumed, the payload is streamed by the caller
@@ -131,6 +132,8 @@ pub fn one_cut(buf: &[u8; 40], cut: usize, hdr: usize, l: usize, class: Class, t
     } else if cut < hdr + l {
         // payload not complete yet: wait
         assert!(matches!(&got, Err(FrameError::Incomplete(_))), "c02.payload.incomplete_payload_is_incomplete");
+        // lemma used by the mirsym spec of FrameDecoder::decode: the size hint never exceeds the frame's total size
+        assert!(matches!(&got, Err(FrameError::Incomplete(n)) if *n <= hdr + l), "c02.payload.incomplete_hint_within_frame");
         reached |= B_PAYLOAD_WAIT;
     } else {
         match class {
